@@ -9,7 +9,7 @@ import (
 	"strings"
 
 	"verif/harness/core"
-	_ "verif/harness/props"
+	"verif/harness/props"
 )
 
 func main() {
@@ -56,6 +56,11 @@ func main() {
 			skip[n] = true
 		}
 		core.ChildMain(p, core.Tier(os.Args[3]), seed, lo, hi, skip, os.Args[8])
+	case "xdigest":
+		if len(os.Args) < 3 {
+			usage()
+		}
+		os.Exit(props.XDigestMain(os.Args[2]))
 	case "list":
 		for _, id := range core.IDs() {
 			fmt.Println(id)
